@@ -68,7 +68,7 @@ Theorem C04_route_events : forall k n, no_colon n -> n <> [] ->
 Proof. exact route_events. Qed.
 Print Assumptions C04_route_events.
 
-Theorem C04_route_data_hyphen : forall k n, no_colon n ->
+Theorem C04_route_data_hyphen : forall k n, no_colon n -> n <> [] ->
   route k (lit "data-" ++ n) = Some (lit "d:" ++ dash_to_camel (lower_str n)).
 Proof. exact route_data_hyphen. Qed.
 Print Assumptions C04_route_data_hyphen.
